@@ -77,7 +77,7 @@ func stringsReplaceOnce(s, old, new string) string {
 
 func runC10(r *rt.Runner) {
 	wildModel = true
-	n := r.N(3000, 150000)
+	n := r.N(12000, 150000)
 	for k := 0; k < n; k++ {
 		r.Case("accepted", func(c *rt.C) {
 			rng := c.Rand()
